@@ -11,7 +11,7 @@
    the iteration number / blueprint name by  name.split('#', 1)  does so here too ([split_hash]), followed by
    the comparison key the code uses at that site: int(...) or the string itself ([keykind]).
    Validation errors of instantiate_dowhile (missing bindings, method mismatch, conflicting file names,
-   unknown producers, condition outside the loop) are modelled separately in Validate.v. *)
+   unknown producers, condition outside the loop) are not modelled: the documents considered load. *)
 From Coq Require Import String Ascii List Bool Arith NArith.
 Require Import V.Lib.PyStr V.Lib.JTree.
 Import ListNotations.
